@@ -9,6 +9,7 @@ WT=$(mktemp -d /tmp/regress.XXXXXX)
 git -C /repo worktree add -q --detach "$WT" "$REV" || exit 2
 trap 'git -C /repo worktree remove --force "$WT" 2>/dev/null; rm -rf "$WT"' EXIT
 for f in "$(dirname "$0")"/../regress/*_test.go.txt; do
-  cp "$f" "$WT/engine/zz_$(basename "${f%.txt}")"
+  PLACE=$(head -1 "$f" | sed -n 's#^// place in: *##p'); [ -z "$PLACE" ] && PLACE=engine
+  cp "$f" "$WT/$PLACE/zz_$(basename "${f%.txt}")"
 done
-cd "$WT" && go test -vet=off -count=1 -run 'TestAliases|TestMapGrowth|TestUnrelated|TestAppendAlias' -v ./engine/ 2>&1 | grep -E '^(---|ok|FAIL|\s+zz_)' | cut -c1-200
+cd "$WT" && go test -vet=off -count=1 -run 'TestAliases|TestMapGrowth|TestUnrelated|TestAppendAlias|TestOtherKey|TestDeepNesting' -v ./engine/ ./builder/ 2>&1 | grep -E '^(---|ok|FAIL|\s+zz_)' | cut -c1-200
